@@ -184,6 +184,12 @@ def run_property(prop, tier, seed, opts):
             if tag in seen:
                 continue
             seen.add(tag)
+            # a contract shared by several properties may say which of them a clause states (clause_props); a clause
+            # that belongs to another property is reported by that property's check, not by this one
+            cp = getattr(c.cls, "clause_props", None) or {}
+            owners = cp.get((v.get("clause") or "").split(":", 1)[-1])
+            if owners and rep.prop not in owners:
+                continue
             handle_violation(rep, known, c, v.get("clause"), v.get("args"), v, obligation=f"{c.key}::{v.get('clause')}",
                              solver=None, source="bounded enumeration of the executable contract on the real function")
     for key, items in need_bounded.items():
